@@ -505,3 +505,27 @@ Definition C05_full_layout_statement (render : xsymtab -> dfile -> list N) : Pro
 Theorem C05_full_layout : forall render, renders_layout render -> C05_full_layout_statement render.
 Proof. exact full_layout. Qed.
 Print Assumptions C05_full_layout.
+
+(* printOption before /repo 847fc16 wrote an option statement twice when its value is an empty message whose source
+   is not on one line (hand-written `option (j5.ext.v1.message).object = {` newline `};`): the tokens of that printer
+   for message Multi { option (j5.ext.v1.message).object = {}; string a = 1; } are read back by the model parser as a
+   message with TWO options — not an equivalent descriptor (protocompile rejects the text outright: option already
+   set; reproduced on the real code by the hand-built stream before the fix) *)
+Theorem C05_empty_option_previous_refuted :
+  wf_dfile w2_imp w2_file
+  /\ exists D', parse_file_tokens w2_imp w2_prev_tokens = Some D' /\ ~ desc_equiv w2_file D'.
+Proof. exact empty_option_previous_refuted. Qed.
+Print Assumptions C05_empty_option_previous_refuted.
+
+(* identifiers with non-ASCII letters: the compiler accepted `object Élan { field naïve string }` (the BCL lexer takes
+   unicode letters) and built message Élan { string naïve = 1; } until /repo c71d8d9 (cmpb) made such names a
+   conversion error. The descriptor satisfies wf_dfile (identifiers are byte strings at token level), but its printed
+   tokens are not tokens of the lexer model: the one-space rendering does not scan back to them (the real
+   protocompile lexer: invalid character). So the is_layout premise of C05_text_roundtrip is not implied by wf_dfile;
+   it is evaluated on every printed file of a run. *)
+Theorem C05_non_ascii_identifier_refuted :
+  wf_dfile w3_imp w3_file
+  /\ forallb tok_ok w3_tokens = false
+  /\ scan_text (spaced w3_tokens) <> Some w3_tokens.
+Proof. exact non_ascii_identifier_witness. Qed.
+Print Assumptions C05_non_ascii_identifier_refuted.
